@@ -284,7 +284,8 @@ def gen_op(rng, v, rid, profile):
     for kind, weight in (("wake", w.get("wake", 0.36)), ("check", w.get("check", 0.12)), ("adv", w.get("adv", 0.05)),
                          ("die", w.get("die", 0.08)), ("xkill", w.get("xkill", 0.04)), ("fault", w.get("fault", 0.03)),
                          ("raw", w.get("raw", 0.02)), ("sig", w.get("sig", 0.012)),
-                         ("sockev", w.get("sockev", 0.03 if v.any_on_demand else 0.0))):
+                         ("sockev", w.get("sockev", 0.03 if v.any_on_demand else 0.0)),
+                         ("unit", profile.get("unit_ops", 0.0) if v.names else 0.0)):
         cum += weight
         if r < cum:
             break
@@ -314,6 +315,13 @@ def gen_op(rng, v, rid, profile):
         return ["sig", rng.choice(["quit", "reload", "reload"])]
     if kind == "sockev":
         return ["sockev", 1 if rng.random() < 0.7 else 0]
+    if kind == "unit":
+        n = rng.choice(v.names)
+        if rng.random() < 0.3:
+            n = case_variant(rng, n)
+        if rng.random() < 0.4:
+            return ["poke", n, rng.choice(["stopped", "stopped", "starting", "active", "stopping"])]
+        return ["call", n, rng.choice(["manage", "start", "stop", "spawns", "kills", "reaps", "spawn1", "spawn1", "manage"])]
     return ["req", gen_request(rng, v, rid, profile), rng.randint(0, 2)]
 
 
